@@ -47,6 +47,9 @@ struct IC
     virtual size_t capacity()                                                                          = 0;
     /// side-effect-free lookup where the container has one (see needs_twin): value, use count
     virtual std::optional<std::pair<uint64_t, size_t>> look(K k) = 0;
+    /// address range of the container object itself (its mutex is a member): lets the harness tell the
+    /// container's lock from other pthread mutexes (libstdc++'s debug-mode iterator registry)
+    virtual std::pair<const void*, size_t> extent() const = 0;
 #ifdef CAPPUCCINO_VERIF_HOOKS
     /// private structure, canonical text (structural tier)
     virtual std::string dump() = 0;
